@@ -45,6 +45,8 @@ type csWorld struct {
 	fresh     []csAcct // fresh key that may replace position j in the honest new config
 	fouts     []csAcct // outsiders a forged chain config lists
 	strangers []csAcct // outsiders no config ever lists
+	// the stale-config-height family runs in the cases with idx % staleEvery == 0
+	staleEvery int
 }
 
 func newCSWorld(ps *peerSet, genCfg *vconfig.ChainConfig) (*csWorld, error) {
@@ -316,6 +318,7 @@ type csOutcome struct {
 	probes       []*csHdr // follow-ups that must be rejected
 	positive     *csHdr   // follow-up signed by >= C+1 members of the new set
 	control, hit *csArm
+	stale        *csStaleArm // stale-config-height family (every staleEvery-th case)
 	harness      string
 	inconclusive string
 }
@@ -605,6 +608,15 @@ func runConfigSwitchCase(w *csWorld, l *led, rng *vf.RNG, idx int) *csOutcome {
 		return o
 	}
 	o.hit = o.runArm(l, true, true)
+	if w.staleEvery > 0 && idx%w.staleEvery == 0 {
+		var retained []csAcct
+		for j, a := range w.old {
+			if newSet[j].label == a.label {
+				retained = append(retained, a)
+			}
+		}
+		o.stale = o.runStaleArm(l, rng.Sub(900), (idx/w.staleEvery)%len(csStaleVariants), hH, newSet, removed, retained, newIDs, inForceNext)
+	}
 	return o
 }
 
@@ -749,11 +761,12 @@ func csJoinClasses(cl []string) string {
 
 // ---------------------------------------------------------------- phase driver
 
-func runConfigSwitchPhase(ps *peerSet, genCfg *vconfig.ChainConfig, pool chan *led, workers int, rng *vf.RNG, nCases int) ([]*csOutcome, error) {
+func runConfigSwitchPhase(ps *peerSet, genCfg *vconfig.ChainConfig, pool chan *led, workers int, rng *vf.RNG, nCases, staleEvery int) ([]*csOutcome, error) {
 	w, err := newCSWorld(ps, genCfg)
 	if err != nil {
 		return nil, err
 	}
+	w.staleEvery = staleEvery
 	outs := make([]*csOutcome, nCases)
 	var mu sync.Mutex
 	vf.Parallel(nCases, workers, func(i int) {
@@ -1001,6 +1014,7 @@ func configSwitchVerdicts(r *vf.Run, outs []*csOutcome) {
 				r.Count("cs/arm-complete/" + armName)
 			}
 		}
+		viols = append(viols, csStaleVerdicts(r, o, seed)...)
 		if len(samples) < 3 && o.hit != nil {
 			var st []map[string]interface{}
 			for _, s := range o.steps {
@@ -1014,16 +1028,7 @@ func configSwitchVerdicts(r *vf.Run, outs []*csOutcome) {
 				"forged_config": o.forgedPeers, "hostile_steps": st, "follow_ups": fu, "events_after_hostile_arm": len(o.hit.events)})
 		}
 	}
-	sort.SliceStable(viols, func(i, j int) bool {
-		a, b := viols[i], viols[j]
-		if a.o.N != b.o.N {
-			return a.o.N < b.o.N
-		}
-		if a.size != b.size {
-			return a.size < b.size
-		}
-		return a.o.idx < b.o.idx
-	})
+	csSortViols(viols)
 	for _, v := range viols {
 		r.Violation(v.key, v.what, v.w)
 	}
@@ -1044,7 +1049,8 @@ func csAfterGroup(o *csOutcome, e csEvent) string {
 	return "before-honest-H-inputs"
 }
 
-func configSwitchRequire(r *vf.Run, ns []int, perN int) {
+func configSwitchRequire(r *vf.Run, ns []int, perN, staleEvery int) {
+	csStaleRequire(r, int64(len(ns))*int64((perN+staleEvery-1)/staleEvery))
 	for _, N := range ns {
 		r.Require(fmt.Sprintf("cs/N=%d", N), int64(perN))
 	}
